@@ -286,6 +286,8 @@ def run(chk):
             chk.violation('leak', '%s %dx%d: allocations remain after an add/solve history with failed attempts: %s' % (typ, n, n, o[-1]), sc.lines)
     unknown_histories(chk, exe, rng, (2 if quick else 15) * (3 if broken else 1))
     if not chk.violations:
+        indirect_paths(chk, exe, rng, (1 if quick else 12) * (3 if broken else 1))
+    if not chk.violations:
         connectivity_patterns(chk, exe, rng, (24 if quick else 400) * (3 if broken else 1), broken)
     if not chk.violations:
         rect_histories(chk, exe, rng, (2 if quick else 12) * (3 if broken else 1))
@@ -400,6 +402,63 @@ def connectivity_patterns(chk, exe, rng, reps, broken):
             broken.append('correspondence: Model/Connect and build_connectivity_matrix differ on `%s`\n  library: %s\n  model  : %s' % (l, seen[k], o))
             break
         chk.count('connectivity_model_compared')
+
+
+def indirect_paths(chk, exe, rng, reps):
+    """a determining set plus one more known standard on three or four ports whose S matrix has exact zeros between ports that are joined
+    through a third one (S13 = S31 = 0 with S12, S23 not zero): those cells carry signal, they are not leakage samples.  The set still
+    determines the terms, the solve succeeds and an independent device is recovered"""
+    for rep in range(reps):
+        for typ in calsim.TYPES:
+            if typ in ('T16', 'U16'):
+                continue
+            n = rng.choice([3, 3, 4]) if rep else 3
+            sc = calsim.Scenario(rng, typ, n, n, 1, form=rng.choice(['m', 'ab'])).begin()
+            sc.solt()
+            k = rng.choice([3, n])
+            ports = rng.sample(range(1, n + 1), k)
+            # a chain: port order p0 - p1 - p2 (- p3): neighbours joined, all other off-diagonal cells exactly zero
+            H = [[0] * k for _ in range(k)]
+            V = np.zeros((k, k), complex)
+            hd = 3
+            for i in range(k):
+                for j in range(k):
+                    if i == j or abs(i - j) == 1:
+                        v = calsim.rc(rng, 0.25) + (0.5 if i != j else 0.0)
+                        sc.lines.append('cal make_scalar %d %s' % (sc.c, vlib.c2h(v)))
+                        H[i][j], V[i, j] = hd, v
+                        hd += 1
+            S = calsim.embed(n, [q - 1 for q in ports], V.tolist(), sc.others)
+            sc.lines.append('cal add %d mapped %s %d %d %s M %s' % (sc.n, sc.mtext(sc.meas([S])), k, k, ' '.join(str(h) for row in H for h in row), ' '.join(str(q) for q in ports)))
+            where = rng.random() < 0.5
+            if where:
+                # the chain first, the conventional standards after it
+                std = sc.lines.pop()
+                first_add = next(i for i, l in enumerate(sc.lines) if l.startswith('cal add '))
+                sc.lines.insert(first_add, std)
+                mk = [l for l in sc.lines if l.startswith('cal make_scalar')]
+                sc.lines = [l for l in sc.lines if not l.startswith('cal make_scalar')]
+                sc.lines[first_add:first_add] = mk
+            sc.solve().add_calibration(b'c')
+            dut = sc.random_dut()
+            sc.lines += [sc.apply_line(0, dut), 'cal free 0', 'cal live']
+            out, rc, err = vlib.run_lines(exe, sc.lines, timeout=600)
+            chk.evaluations += 1
+            tag = '%s %dx%d, short-open-load-through plus a known %d-port chain on ports %s (zeros between ports joined through another)' % (typ, n, n, k, ports)
+            if rc != 0 or len(out) != len(sc.lines):
+                chk.violation('sanitizer-indirect', '%s: crashed / sanitizer report:\n%s' % (tag, err[-1200:]), sc.lines[:len(out) + 1])
+                return
+            bad = [(l, o) for l, o in zip(sc.lines, out) if not o.startswith('ok')]
+            if bad:
+                chk.violation('indirect-refused', '%s: `%s` -> %s' % (tag, bad[0][0][:60] + ' ... ' + bad[0][0][-20:], bad[0][1][:80]), sc.lines[:sc.lines.index(bad[0][0]) + 1])
+                return
+            ok, Sm = calsim.parse_apply(out[-3], n)
+            e = float(np.abs(Sm[0] - dut[0]).max()) if ok else float('inf')
+            if not e <= 1e-7:
+                chk.violation('indirect-wrong', '%s: the solve succeeds but the calibration does not correct an independent device (error %.3e)' % (tag, e), sc.lines[:-2])
+                return
+            chk.count('indirect_path_sets_ok')
+            chk.distinct.add(('indirect', typ, n, k, tuple(ports), where))
 
 
 def rect_histories(chk, exe, rng, reps):
